@@ -573,6 +573,120 @@ func ExchangeCases(tier string, seed uint64) []ExCase {
 		e.Rig.WaitEvents("wrote", 1, 3*time.Second)
 	})
 
+	// ---------------------------------------------------------------- more upstream faults (status mapping, C12)
+	httpsGet := func(addr string) string { return getReq("https://" + addr + "/x") }
+	type tlsFault struct {
+		name string
+		h    func(c net.Conn, n int)
+		opt  func(*Options)
+		feat func(*Feat)
+	}
+	cert2, _, _ := SelfSigned()
+	for _, tf := range []tlsFault{
+		{"tls-origin-closes-in-handshake", func(c net.Conn, n int) { buf := make([]byte, 16); c.Read(buf); c.Close() }, nil,
+			func(f *Feat) { f.OpErr = 1 }}, // unread handshake bytes turn the close into a reset: read tcp ...: connection reset by peer
+		{"tls-origin-resets-in-handshake", func(c net.Conn, n int) { buf := make([]byte, 16); c.Read(buf); Reset(c) }, nil,
+			func(f *Feat) { f.OpErr = 1 }},
+		{"tls-origin-requires-client-cert", func(c net.Conn, n int) {
+			tc := tls.Server(c, &tls.Config{Certificates: []tls.Certificate{cert2}, ClientAuth: tls.RequireAnyClientCert})
+			tc.SetDeadline(time.Now().Add(2 * time.Second))
+			tc.Handshake()
+			buf := make([]byte, 16)
+			tc.Read(buf)
+			tc.Close()
+		}, func(o *Options) { o.InsecureUpstream = true }, func(f *Feat) { f.OpErr = 1 }}, // remote error: tls: certificate required (an OpError)
+		{"tls-origin-old-version-only", func(c net.Conn, n int) {
+			tc := tls.Server(c, &tls.Config{Certificates: []tls.Certificate{cert2}, MaxVersion: tls.VersionTLS10, MinVersion: tls.VersionTLS10})
+			tc.SetDeadline(time.Now().Add(2 * time.Second))
+			tc.Handshake()
+			tc.Close()
+		}, nil, func(f *Feat) { f.OpErr = 1 }},
+		{"tls-origin-garbage-handshake-message", func(c net.Conn, n int) {
+			c.Write([]byte{22, 3, 3, 0, 5, 9, 9, 9, 9, 9})
+			time.Sleep(50 * time.Millisecond)
+			c.Close()
+		}, nil, func(f *Feat) {}}, // "tls: handshake message of length ... exceeds maximum": an untyped error
+	} {
+		tf := tf
+		cs = append(cs, ExCase{Name: "rt-" + tf.name, Leaf: "rt-err", Class: "tlsfail", Run: func(e *Env) {
+			o := e.Peer(tf.h)
+			e.Start(tf.opt)
+			c := e.Client()
+			f := NoFeat()
+			f.HTTPS = true
+			tf.feat(&f)
+			ex := Ex{Val: Val{Rt: 1}, Method: "GET", Feat: f}
+			co := e.Do(c, httpsGet(o.Addr), false, &ex)
+			e.End(c, co)
+			e.O.Exs = []Ex{ex}
+		}})
+	}
+	cs = append(cs, ExCase{Name: "rt-tls-handshake-timeout", Leaf: "rt-err", Class: "timeout", Run: func(e *Env) {
+		o := e.Peer(func(c net.Conn, n int) { time.Sleep(2 * time.Second); c.Close() })
+		e.Start(func(op *Options) { op.TLSHandshakeTimeout = 250 * time.Millisecond })
+		c := e.Client()
+		f := NoFeat()
+		f.HTTPS, f.Timeout = true, true // net/http: TLS handshake timeout (Timeout() true, not an OpError)
+		ex := Ex{Val: Val{Rt: 1}, Method: "GET", Feat: f}
+		co := e.Do(c, httpsGet(o.Addr), false, &ex)
+		e.End(c, co)
+		e.O.Exs = []Ex{ex}
+	}})
+	cs = append(cs, ExCase{Name: "rt-response-header-timeout", Leaf: "rt-err", Class: "other", Run: func(e *Env) {
+		o := e.Peer(func(c net.Conn, n int) { time.Sleep(2 * time.Second); c.Close() })
+		e.Start(func(op *Options) { op.ResponseHeaderTimeout = 250 * time.Millisecond })
+		c := e.Client()
+		f := NoFeat()
+		f.Timeout = true // net/http: timeout awaiting response headers
+		ex := Ex{Val: Val{Rt: 1}, Method: "GET", Feat: f}
+		co := e.Do(c, getReq("http://"+o.Addr+"/x"), false, &ex)
+		e.End(c, co)
+		e.O.Exs = []Ex{ex}
+	}})
+	cs = append(cs, ExCase{Name: "connect-upstream-silent-connect-timeout", Leaf: "connect-err", Class: "timeout", Run: func(e *Env) {
+		up := e.Peer(func(c net.Conn, n int) { time.Sleep(2 * time.Second); c.Close() })
+		e.Start(func(op *Options) { op.Upstream = "http://" + up.Addr; op.ConnectTimeout = 250 * time.Millisecond })
+		c := e.Client()
+		f := NoFeat()
+		f.Timeout = true // context deadline exceeded
+		ex := Ex{Val: Val{Connect: true, Cn: 1}, Method: "CONNECT", Feat: f}
+		co := e.Do(c, connectReq("example.invalid:443"), false, &ex)
+		e.End(c, co)
+		e.O.Exs = []Ex{ex}
+	}})
+	for _, k := range []string{"close", "garbage", "reset"} {
+		k := k
+		class := "other"
+		if k == "reset" {
+			class = "connfail"
+		}
+		cs = append(cs, ExCase{Name: "connect-upstream-" + k + "-instead-of-reply", Leaf: "connect-err", Class: class, Run: func(e *Env) {
+			up := e.Peer(func(c net.Conn, n int) {
+				ReadHead(c, time.Second)
+				switch k {
+				case "garbage":
+					c.Write([]byte("\x00\x01garbage\r\n\r\n"))
+					time.Sleep(30 * time.Millisecond)
+					c.Close()
+				case "reset":
+					Reset(c)
+				default:
+					c.Close()
+				}
+			})
+			e.Start(func(op *Options) { op.Upstream = "http://" + up.Addr })
+			c := e.Client()
+			f := NoFeat()
+			if k == "reset" {
+				f.OpErr = 1
+			}
+			ex := Ex{Val: Val{Connect: true, Cn: 1}, Method: "CONNECT", Feat: f}
+			co := e.Do(c, connectReq("example.invalid:443"), false, &ex)
+			e.End(c, co)
+			e.O.Exs = []Ex{ex}
+		}})
+	}
+
 	// ---------------------------------------------------------------- MITM
 	add("mitm-tls-inner-get", "mitm", func(e *Env) {
 		cert, _, err := SelfSigned()
@@ -640,6 +754,24 @@ func ExchangeCases(tier string, seed uint64) []ExCase {
 		e.End(c, co)
 		e.O.Exs = []Ex{ex1}
 	})
+	for i := range cs {
+		if cs[i].Class != "" {
+			continue
+		}
+		n := cs[i].Name
+		switch {
+		case n == "rt-refused", n == "connect-refused", n == "connect-upstream-refused":
+			cs[i].Class = "connfail"
+		case n == "rt-dial-timeout", n == "connect-dial-timeout":
+			cs[i].Class = "timeout"
+		case strings.HasPrefix(n, "rt-https-"):
+			cs[i].Class = "tlsfail"
+		case strings.HasPrefix(n, "rt-upstream-rejects-connect-"), strings.HasPrefix(n, "connect-upstream-rejects-"):
+			cs[i].Class = "rejected"
+		case strings.HasPrefix(n, "mres-"), n == "connect-mres-err", n == "mitm-mres-err", strings.HasPrefix(n, "mreq-"):
+			cs[i].Class = "refusal"
+		}
+	}
 	return cs
 }
 
